@@ -331,6 +331,7 @@ CHECKS = {
         "groups": [
             {"pkg": "./server", "overlay": "server", "pkgname": "server",
              "harnesses": [
+                 {"name": "VerifC18EventsTellOperationsApart", "replay": "interpreted", "covers": ["done"], "targets": ["activityManager).handleRaftLog"]},
                  {"name": "VerifC18Activity", "quick": {"ops": 2, "steps": 4, "pubfailures": 1, "raftfailures": 1}, "thorough": {"ops": 3, "steps": 5, "pubfailures": 1, "raftfailures": 1},
                   "replay": "interpreted", "max-paths": 3000000,
                   "covers": ["done", "commit", "failover", "restart"],
